@@ -118,3 +118,17 @@ Fixpoint index_io_seq (segs : list segz) (st : cache Z) (steps : list (Z * list 
 
 Definition check_index_io (c : chan * list (Z * list (Z * Z))) : bool :=
   let '(ch, steps) := c in index_io_seq (snd ch) None steps.
+
+(* channel[start:stop:step]: chunks touched by the read its plan issues *)
+Definition check_slice_io (c : chan * option Z * option Z * option Z * list (Z * Z)) : bool :=
+  let '(ch, start, stop, step, observed) := c in
+  let segs := snd ch in
+  match read_slice_gen (total_values Z segs) start stop step with
+  | Ok PEmpty => match observed with [] => true | _ => false end
+  | Ok (PRead a b _) =>
+    match lz_plan Z segs a (Some b) with
+    | Ok plan => plan_agrees segs plan observed
+    | Err _ => match observed with [] => true | _ => false end
+    end
+  | Err _ => match observed with [] => true | _ => false end
+  end.
